@@ -4883,10 +4883,12 @@ namespace gch
       has_allocation (void) const noexcept
       {
 #ifdef GCH_LIB_IS_CONSTANT_EVALUATED
-        if (std::is_constant_evaluated ())
-          return true;
-#endif
+        // Note: The capacity is read first so that a call on a run-time object is never folded
+        //       to `true` as a constant initializer (eg. `const bool b = v.inlined ();`).
+        return (InlineCapacity < get_capacity ()) || std::is_constant_evaluated ();
+#else
         return InlineCapacity < get_capacity ();
+#endif
       }
 
       GCH_NODISCARD constexpr
